@@ -63,6 +63,8 @@ def append_unit(wsdir, unit, extra_tests=''):
     if not os.path.exists(target):
         return ['file missing: %s' % unit['append_to']]
     htxt = open(os.path.join(unit['_dir'], unit['harness_file'])).read()
+    htxt, fprobs, _ = expand_fragments(wsdir, htxt)
+    problems.extend(fprobs)
     # contract attributes on real functions (inserted above the item, nothing else changes)
     for c in unit.get('contracts', []):
         cpath = os.path.join(wsdir, c['file'])
@@ -88,6 +90,112 @@ def append_unit(wsdir, unit, extra_tests=''):
         s = open(root).read()
         open(root, 'w').write(gate + '\n' + s)
     return problems
+
+
+def _code_toks(text):
+    return [t for t in rs.tokenize(text) if t.kind not in ('ws', 'comment', 'doc')]
+
+
+def _find_seq(toks, idxs, want, start=0):
+    """positions p (into idxs) where the token texts match `want`"""
+    hits = []
+    for p0 in range(start, len(idxs) - len(want) + 1):
+        if toks[idxs[p0]].text == want[0] and all(toks[idxs[p0 + j]].text == want[j] for j in range(len(want))):
+            hits.append(p0)
+    return hits
+
+
+def expand_fragments(wsdir, htxt):
+    """Rule X8 (statement extraction): a harness file may carry blocks
+
+        //@fragment NAME file=<path> item=<Type::fn>
+        //@from <exact text of the first statement (or its beginning)>
+        //@to <exact text of the end of the last statement>
+        //@subst <token text> => <replacement>          (zero or more)
+        //@endfragment
+
+    and the placeholder /*@FRAGMENT NAME*/.  The statements from..to are copied, on every run, from the named function
+    of the tree under check into the placeholder (inside a wrapper function written in the harness file), after the
+    declared token substitutions (a receiver expression replaced by a wrapper parameter).  Everything between the
+    two anchors is the code that runs; an edit to an anchor itself loses the anchor (undecided).
+    Returns (text, problems, descriptions)."""
+    problems, descr = [], []
+    out = []
+    lines = htxt.split('\n')
+    frags = {}
+    i = 0
+    while i < len(lines):
+        ln = lines[i]
+        m = re.match(r'\s*//@fragment\s+(\w+)\s+file=(\S+)\s+item=(\S+)', ln)
+        if not m:
+            out.append(ln)
+            i += 1
+            continue
+        name, file, item = m.group(1), m.group(2), m.group(3)
+        frm, to, substs = None, None, []
+        i += 1
+        while i < len(lines) and not lines[i].strip().startswith('//@endfragment'):
+            l2 = lines[i].strip()
+            if l2.startswith('//@from '):
+                frm = l2[len('//@from '):]
+            elif l2.startswith('//@to '):
+                to = l2[len('//@to '):]
+            elif l2.startswith('//@subst '):
+                a, b = l2[len('//@subst '):].split('=>', 1)
+                substs.append((a.strip(), b.strip()))
+            i += 1
+        i += 1
+        path = os.path.join(wsdir, file)
+        if not os.path.exists(path):
+            problems.append('file missing: %s' % file)
+            continue
+        src = open(path).read()
+        try:
+            toks = rs.tokenize(src)
+            it, _ = rs.find_item(toks, item, None, 0)
+        except rs.ScanError as e:
+            problems.append(str(e))
+            continue
+        idxs = [k for k in range(it.start_idx, it.end_idx + 1) if toks[k].kind not in ('ws', 'comment', 'doc')]
+        wf = [t.text for t in _code_toks(frm or '')]
+        wt = [t.text for t in _code_toks(to or '')]
+        hf = _find_seq(toks, idxs, wf) if wf else []
+        if len(hf) != 1:
+            problems.append('%s: fragment %s: //@from matches %d times' % (item, name, len(hf)))
+            continue
+        ht = [p for p in _find_seq(toks, idxs, wt, hf[0]) if p >= hf[0]] if wt else []
+        if not ht:
+            problems.append('%s: fragment %s: //@to not found after //@from' % (item, name))
+            continue
+        a_tok = toks[idxs[hf[0]]]
+        b_tok = toks[idxs[ht[0] + len(wt) - 1]]
+        text = src[a_tok.pos:b_tok.pos + len(b_tok.text)]
+        for a, b in substs:
+            ft = _code_toks(text)
+            wa = [t.text for t in _code_toks(a)]
+            hits = _find_seq(ft, list(range(len(ft))), wa)
+            if not hits:
+                problems.append('%s: fragment %s: //@subst %s not found' % (item, name, a))
+                continue
+            # replace right-to-left so offsets stay valid
+            for p0 in reversed(hits):
+                s0 = ft[p0].pos
+                e0 = ft[p0 + len(wa) - 1].pos + len(ft[p0 + len(wa) - 1].text)
+                text = text[:s0] + b + text[e0:]
+            # overlapping hits are not expected
+        frags[name] = text
+        descr.append('X8 fragment %s: statements of %s (%s:%d-%d) copied into a wrapper function%s' % (
+            name, item, file, a_tok.line, b_tok.line,
+            ''.join('; `%s` replaced by parameter `%s`' % ab for ab in substs)))
+    res = '\n'.join(out)
+    for name, text in frags.items():
+        ph = '/*@FRAGMENT %s*/' % name
+        if ph not in res:
+            problems.append('placeholder %s missing' % ph)
+        res = res.replace(ph, text)
+    if re.search(r'/\*@FRAGMENT \w+\*/', res):
+        problems.append('unexpanded fragment placeholder')
+    return res, problems, descr
 
 
 _RES = re.compile(r'^Thread (\d+): ?(.*)$')
